@@ -65,6 +65,8 @@ def own1(ctx: Ctx) -> List[Ob]:
 
 # --------------------------------------------------------------------- ID-EQ
 IDEQ_ALLOW = {"Tree._self_check": "debug helper, not API"}
+#: functions where two nodes are compared with == on purpose
+IDEQ_EQ_ALLOW = {"_find_child": "diff matches peers of two different trees by their data (that is what == is for)", "Node.__eq__": "the definition"}
 
 
 #: operation family of the enclosing API function -> the properties whose behaviour it implements
@@ -76,6 +78,7 @@ _FAMILIES = [
     (r"(^|\.)(iterator|visit|_iter_\w+|_visit_\w+|__iter__)($|\.)", ["C06"]),
     (r"(^|\.)(format|format_iter|_get_prefix|_render_lines)($|\.)", ["C16"]),
     (r"(^|\.)(add_child|add|append_child|prepend_child|prepend_sibling|append_sibling|move_to|remove|remove_children|set_data|rename|sort_children|clear)($|\.)", ["C04"]),
+    (r"(^|\.)(add_child|move_to|set_data|rename|remove|_register)($|\.)", ["C03"]),  # the sibling-uniqueness checks live in these
     (r"(^|\.)(to_dict|to_dict_list|from_dict)($|\.)", ["C14"]),
     (r"(^|\.)(to_list_iter|save|load|_from_list)($|\.)", ["C05", "C12"]),
 ]
@@ -135,6 +138,13 @@ def ideq(ctx: Ctx) -> List[Ob]:
                 if NODELIST in rt and NODE in ot:
                     obs.append(ctx.ob("ID-EQ", _ideq_props(f, "in", n.left, False), f, n, n, False,
                                       "`in` on a node list compares data, not identity"))
+            # == / != between two nodes compares their data objects (Node.__eq__), not the nodes
+            if isinstance(n, ast.Compare) and len(n.ops) == 1 and isinstance(n.ops[0], (ast.Eq, ast.NotEq)):
+                lt, rt = env.types(f, n.left), env.types(f, n.comparators[0])
+                if NODE in lt and NODE in rt and f.top.qualname not in IDEQ_EQ_ALLOW:
+                    obs.append(ctx.ob("ID-EQ", sorted(set(["C01", "C10"]) | set(family_props(f))), f, n, n, False,
+                                      f"`{norm(n)}` compares two nodes with {'==' if isinstance(n.ops[0], ast.Eq) else '!='}: Node.__eq__ compares the data objects, so a clone "
+                                      "or an equal-data node counts as the same node"))
         # identity idioms count as discharged instances
         for n in iter_own(f.node):
             if isinstance(n, ast.Compare) and len(n.ops) == 1 and isinstance(n.ops[0], (ast.Is, ast.IsNot)):
